@@ -529,7 +529,9 @@ func (c *c03) clientMethod(fi *FuncInfo, name string, serverTab map[string][]*sr
 	usedParams := map[string]int{}
 	for si, s := range sites {
 		fields := map[string]ast.Expr{}
-		nt := c.build(body, s.Call.Args[0], s.Call.Pos(), "", fields, 0)
+		// (a request that is the parameter of a private helper stands for what the method
+		// handed to the helper)
+		nt := c.build(body, s.argExpr(info, 0), s.Call.Pos(), "", fields, 0)
 		if nt == nil {
 			r.undecided("r1", fmt.Sprintf("clientFile.%s request #%d", name, si+1), s.Call.Pos(), "request expression %s cannot be resolved to a literal", r.L.str(s.Call.Args[0]))
 			continue
